@@ -12,9 +12,6 @@ func init() {
 			"return 0, fmt.Errorf(\"byte array length %d is less than %d\", len(b), *p+2)", "return 0, fmt.Errorf(\"%x's length is less than %d\", b, *p+2)", "C20.flow"},
 		Mutant{"C20", "password-in-error", "crypto/crypto.go",
 			"return key, et, fmt.Errorf(\"error deriving key from string: %+v\", err)", "return key, et, fmt.Errorf(\"error deriving key from %q: %+v\", passwd, err)", "C20.flow"},
-		Mutant{"C20", "hex-key-via-sprintf-into-error", "crypto/rfc3962/encryption.go",
-			"func EncryptData(key, data []byte, e etype.EType) ([]byte, []byte, error) {\n\tif len(key) != e.GetKeyByteSize() {\n\t\treturn []byte{}, []byte{}, fmt.Errorf(\"incorrect keysize: expected: %v actual: %v\", e.GetKeyByteSize(), len(key))",
-			"func EncryptData(key, data []byte, e etype.EType) ([]byte, []byte, error) {\n\tif len(key) != e.GetKeyByteSize() {\n\t\treturn []byte{}, []byte{}, fmt.Errorf(\"incorrect keysize: expected: %v actual: %v\", e.GetKeyByteSize(), len(key))", ""},
 		Mutant{"C20", "derived-key-in-error", "crypto/crypto.go",
 			"\tkey = types.EncryptionKey{\n\t\tKeyType:  etypeID,\n\t\tKeyValue: k,\n\t}\n\treturn key, et, nil", "\tkey = types.EncryptionKey{\n\t\tKeyType:  etypeID,\n\t\tKeyValue: k,\n\t}\n\tif len(k) == 0 {\n\t\treturn key, et, fmt.Errorf(\"empty key %s\", hex.EncodeToString(k))\n\t}\n\treturn key, et, nil", "C20.flow"},
 		Mutant{"C20", "gob-credentials-password", "credentials/credentials.go",
